@@ -128,8 +128,10 @@ type OracleFailure struct {
 	Input    interface{} `json:"input"`
 	// Signature of a known-finding mechanism predicate ("" if none matches).
 	Signature string `json:"signature"`
-	// ModelAgrees: the model reproduces the violating outcome on this input.
+	// ModelAgrees: the model reproduces the real code's outcome on this input (set by Compare
+	// for failures that carry the request index in ReqIdx; -1 = not compared).
 	ModelAgrees bool `json:"model_agrees"`
+	ReqIdx      int  `json:"req_idx"`
 }
 
 type Report struct {
@@ -224,6 +226,14 @@ func (r *Report) Compare(driver string, reqs, impl []string, human []interface{}
 		r.Broken = append(r.Broken, "driver: "+err.Error())
 		return
 	}
+	r.mu.Lock()
+	for k := range r.OracleFailures {
+		f := &r.OracleFailures[k]
+		if f.ReqIdx > 0 && f.ReqIdx-1 < len(model) {
+			f.ModelAgrees = model[f.ReqIdx-1] == impl[f.ReqIdx-1]
+		}
+	}
+	r.mu.Unlock()
 	for i := range reqs {
 		if model[i] != impl[i] {
 			var h interface{}
